@@ -54,6 +54,7 @@ class PopenFuture(concurrent.futures.Future):
         self.end_time = None
         self._exception = None
         self._cancel_requested = False
+        self._thread = None
 
     def start(self):
         """Starts the subprocess and immediately returns."""
@@ -89,7 +90,8 @@ class PopenFuture(concurrent.futures.Future):
         # we don't expect them to actually prevent halmos from terminating,
         # as long as the underlying processes are terminated (either by natural
         # causes or by forceful termination)
-        threading.Thread(target=run, daemon=False).start()
+        self._thread = threading.Thread(target=run, daemon=False)
+        self._thread.start()
 
         return self
 
@@ -126,7 +128,12 @@ class PopenFuture(concurrent.futures.Future):
         # ensure file descriptors are closed after process termination.
         # note: when a process is killed via psutil, the file descriptors remain open on the Python side,
         # leading to resource leaks. see: https://github.com/a16z/halmos/issues/523
-        if self.process:
+        # only the worker thread may do this: it also runs communicate(), which closes the
+        # same pipes when the process ends; closing them from another thread as well can
+        # close a descriptor that has been reused in the meantime (e.g. by psutil in a
+        # concurrent cancel(), which then fails and leaves its process running).
+        # the worker thread calls cancel() again once communicate() is over.
+        if self.process and threading.current_thread() is self._thread:
             for stream in [
                 self.process.stdout,
                 self.process.stderr,
